@@ -122,6 +122,13 @@ pub fn run_script(script: &str) -> String {
                 ["pz"] => {
                     peer.write(&empty_frame()).await;
                 }
+                ["pw", hx] => {
+                    // one length-delimited frame with exactly these bytes after the size field
+                    let body = crate::val::unhex(hx).unwrap_or_default();
+                    let mut fr = ((body.len() + 4) as u32).to_be_bytes().to_vec();
+                    fr.extend(body);
+                    peer.write(&fr).await;
+                }
                 ["eof"] => {
                     peer.shutdown().await;
                 }
@@ -296,8 +303,67 @@ pub fn gen_script(r: &mut Rng, max_len: u64) -> String {
     evs.join(" ; ")
 }
 
+/// frames for the `pw` event (bytes after the size field): the performatives a connection without sessions can meet, and
+/// frames that do not decode - the model classifies them from the bytes (Conn/WireEvents.v over Frame/AmqpFrame.v)
+pub fn wire_frames() -> Vec<(String, &'static str)> {
+    let fb = |ch: u16, p: &Performative, pay: &[u8]| crate::val::hex(&frame_bytes(ch, p, pay)[4..]);
+    let open = frame_bytes(0, &peer_open(None, 10, 1024), &[]);
+    let begin = frame_bytes(0, &peer_begin(None), &[]);
+    let tr = fe2o3_amqp_types::performatives::Transfer {
+        handle: 0.into(),
+        delivery_id: Some(0),
+        delivery_tag: Some(vec![1u8, 2].into()),
+        message_format: Some(0),
+        settled: None,
+        more: false,
+        rcv_settle_mode: None,
+        state: None,
+        resume: false,
+        aborted: false,
+        batchable: false,
+    };
+    let disp = fe2o3_amqp_types::performatives::Disposition {
+        role: definitions::Role::Receiver,
+        first: 0,
+        last: None,
+        settled: true,
+        state: None,
+        batchable: false,
+    };
+    let det = fe2o3_amqp_types::performatives::Detach { handle: 0.into(), closed: true, error: None };
+    vec![
+        (fb(0, &peer_begin(None), &[]), "begin without remote-channel"),
+        (fb(1, &peer_begin(Some(3)), &[]), "begin naming an unknown channel"),
+        (fb(0, &peer_end(false), &[]), "end on an unmapped channel"),
+        (fb(0, &peer_end(true), &[]), "end with an error on an unmapped channel"),
+        (fb(2, &peer_flow(), &[]), "flow on an unmapped channel"),
+        (fb(0, &Performative::Transfer(tr), &[0, 0x53, 0x77, 0x40]), "transfer on an unmapped channel"),
+        (fb(0, &Performative::Disposition(disp), &[]), "disposition on an unmapped channel"),
+        (fb(0, &Performative::Detach(det), &[]), "detach on an unmapped channel"),
+        (crate::val::hex(&open[4..]), "a second open"),
+        (fb(0, &peer_close(false), &[]), "close"),
+        (fb(0, &peer_close(true), &[]), "close with an error"),
+        (fb(7, &peer_close(true), &[]), "close with an error on another channel"),
+        ("02000000".to_string(), "empty frame"),
+        ("02000005".to_string(), "empty frame on channel 5"),
+        ("02000000ff0102".to_string(), "garbage body"),
+        (crate::val::hex(&begin[4..begin.len() - 3]), "begin cut short"),
+        ("0200000000531945".to_string(), "unknown descriptor"),
+        ("0200000000532445".to_string(), "a delivery state where a performative belongs"),
+        (format!("03000000{}", crate::val::hex(&begin[8..])), "extended header (doff 3)"),
+        (format!("02010000{}", crate::val::hex(&begin[8..])), "SASL frame type after the open"),
+        ("0200".to_string(), "shorter than the frame header"),
+        (format!("{}ffff", crate::val::hex(&frame_bytes(0, &peer_end(false), &[])[4..])), "end followed by junk inside the frame"),
+        ("0200000000a30e616d71703a626567696e3a6c69737445".to_string(), "begin by descriptor name, empty list (mandatory fields missing)"),
+    ]
+}
+
 /// the property checked directly on the observed trace (no model involved)
 pub fn direct_oracle(script: &str, trace: &str) -> Vec<String> {
+    if script.contains("pw ") {
+        // raw frames are judged by the model (which classifies them from their bytes) and by the hostile-peer harness
+        return Vec::new();
+    }
     let mut v = Vec::new();
     let evs: Vec<&str> = script.split(';').map(|s| s.trim()).filter(|s| !s.is_empty()).collect();
     let steps: Vec<&str> = trace.split('#').next().unwrap_or("").split(';').map(|s| s.trim()).collect();
@@ -406,6 +472,16 @@ pub fn run(seed: u64, n: u64, thorough: bool, corpus: &[String], dir: &str) {
     for _ in 0..n {
         scripts.push(gen_script(&mut r, if thorough { 9 } else { 6 }));
     }
+    // raw frames on an open connection, each followed by what a peer may do next
+    for (hx, _) in wire_frames() {
+        for follow in ["", " ; pc", " ; pce", " ; eof", " ; close", " ; pz ; close"] {
+            scripts.push(format!("open ; ph ; po ; pw {}{}", hx, follow));
+        }
+        // ... and while the local close is under way / in the discarding state
+        scripts.push(format!("open ; ph ; po ; close ; pw {} ; pc", hx));
+        scripts.push(format!("open ; ph ; po ; pf 0 ; pw {} ; pc", hx));
+    }
+    out.add("raw_frame_scripts", (wire_frames().len() * 8) as u64);
     if thorough {
         // all scripts of length <= 3 after `open ; ph ; po`, and of length <= 3 from scratch over a smaller alphabet
         let small = ["open", "ph", "po", "pc", "pce", "pf 0", "eof", "close", "closee", "pz"];
